@@ -235,6 +235,81 @@ theorem onTensor_append (s : Spec ℝ) (xs ys : List ℝ) :
   · simp [ha, List.map_append]
 
 
+/-! ## pass 3 — kernels as the code computes them: constructor checks, softplus threshold, all seven at once -/
+
+/-- **Every clause of the kernel part, for all seven kernels at once** (as the code computes them, Tolerant through
+softplus): for every accepted parameter set of the domain, `ρ(0)=0`, `ρ` non-decreasing and non-negative on `[0,∞)`,
+`ρ'` (the closed form autograd returns) is the derivative at every `x > 0`, `ρ' > 0` and `ρ'' ≤ 0` on `[0,∞)`. -/
+theorem builtin_spec_laws (s : Spec ℝ) (h : s.inDomain) :
+    s.val 0 = 0 ∧ MonotoneOn s.val (Ici 0) ∧ (∀ x, 0 ≤ x → 0 ≤ s.val x ∧ 0 < s.d1 x ∧ s.d2 x ≤ 0) ∧
+    (∀ x, 0 < x → HasDerivAt s.val (s.d1 x) x) := by
+  obtain ⟨hk, hc, ha, ht⟩ := h
+  rw [ctorOk_real] at hc
+  unfold Spec.val Spec.d1 Spec.d2
+  cases hkind : s.kind with
+  | huber =>
+    simp only [hkind] at hc ⊢
+    exact ⟨huberV_zero hc, huber_monotone hc, fun x hx => ⟨(kernels_nonneg hc (a := 1) (b := -1) (by norm_num) hx).1,
+      huberD1_pos hc x, huberD2_nonpos hc hx⟩, fun x _ => huber_hasDerivAt hc x⟩
+  | pseudoHuber =>
+    simp only [hkind] at hc ⊢
+    exact ⟨pseudoHuberV_zero _, pseudoHuber_monotone hc, fun x hx => ⟨(kernels_nonneg hc (a := 1) (b := -1) (by norm_num) hx).2.1,
+      pseudoHuberD1_pos hc hx, pseudoHuberD2_nonpos hc hx⟩, fun x hx => pseudoHuber_hasDerivAt hc hx.le⟩
+  | cauchy =>
+    simp only [hkind] at hc ⊢
+    exact ⟨cauchyV_zero _, cauchy_monotone hc, fun x hx => ⟨(kernels_nonneg hc (a := 1) (b := -1) (by norm_num) hx).2.2.1,
+      cauchyD1_pos hc hx, cauchyD2_nonpos hc hx⟩, fun x hx => cauchy_hasDerivAt hc hx.le⟩
+  | softLOne =>
+    simp only [hkind] at hc ⊢
+    exact ⟨softLOneV_zero hc, softLOne_monotone hc, fun x hx => ⟨(kernels_nonneg hc (a := 1) (b := -1) (by norm_num) hx).2.2.2.1,
+      softLOneD1_pos hc hx, softLOneD2_nonpos hc hx⟩, fun x hx => softLOne_hasDerivAt hc hx.le⟩
+  | arctan =>
+    have hd := ha hkind
+    simp only []
+    refine ⟨arctanV_zero _, arctan_monotone hd, fun x hx => ⟨?_, arctanD1_pos _ x, arctanD2_nonpos hx⟩, fun x _ => arctan_hasDerivAt hd x⟩
+    rw [← arctanV_zero s.p1]; exact arctanV_mono hd hx
+  | tolerant =>
+    simp only [hkind] at hc ⊢
+    obtain ⟨hapos, hb⟩ := hc
+    have hdom := ht hkind
+    have heq : ∀ x, 0 ≤ x → tolerantC s.p1 s.p2 x = tolerantV s.p1 s.p2 x := fun x hx => (tolerantC_eq hb hx hdom).1
+    refine ⟨by rw [heq 0 le_rfl, tolerantV_zero], ?_, fun x hx => ⟨?_, ?_, ?_⟩, fun x hx => ?_⟩
+    · intro x hx y hy hxy
+      show tolerantC s.p1 s.p2 x ≤ tolerantC s.p1 s.p2 y
+      rw [heq x (mem_Ici.mp hx), heq y (mem_Ici.mp hy)]; exact tolerantV_mono hb hxy
+    · rw [heq x hx, ← tolerantV_zero s.p1 s.p2]; exact tolerantV_mono hb hx
+    · rw [(tolerantC_eq hb hx hdom).2.1]; exact tolerantD1_pos _ _ _
+    · rw [(tolerantC_eq hb hx hdom).2.2]; exact tolerantD2_nonpos hb x
+    · rw [(tolerantC_eq hb hx.le hdom).2.1]
+      refine (tolerant_hasDerivAt hb.ne x).congr_of_eventuallyEq ?_
+      filter_upwards [Ioi_mem_nhds hx] with y hy
+      exact heq y (le_of_lt hy)
+  | scale =>
+    simp only [hkind] at hc ⊢
+    obtain ⟨hpos, _⟩ := hc
+    refine ⟨by rw [scaleV_real, mul_zero], scale_monotone hpos, fun x hx => ⟨?_, hpos, by rw [scaleD2_real]⟩, fun x _ => scale_hasDerivAt _ x⟩
+    rw [scaleV_real]; positivity
+  | poly => exact absurd hkind hk
+
+/-- non-vacuity: the default parameters of all seven kernels are in the domain -/
+example : ∀ kd ∈ [Kind.huber, Kind.pseudoHuber, Kind.cauchy, Kind.softLOne, Kind.arctan, Kind.tolerant, Kind.scale],
+    (⟨kd, 1, -1, 0⟩ : Spec ℝ).inDomain := by
+  intro kd hkd
+  simp only [List.mem_cons, List.not_mem_nil, or_false] at hkd
+  unfold Spec.inDomain
+  rcases hkd with rfl | rfl | rfl | rfl | rfl | rfl | rfl <;>
+    refine ⟨by decide, by rw [ctorOk_real]; norm_num, fun _ => by norm_num, fun _ => by norm_num⟩
+
+/-- **The constructor rejects exactly the parameters outside its documented range** and a rejected construction yields no
+kernel call at all -/
+theorem construct_rejects (s : Spec ℝ) (xs : List ℝ) (h : s.ctorOk = false) : s.construct xs = none := by
+  unfold Spec.construct; simp [h]
+
+theorem construct_accepts (s : Spec ℝ) (xs : List ℝ) (h : s.ctorOk = true) (hx : ∀ x ∈ xs, 0 ≤ x) :
+    s.construct xs = some (xs.map s.val) := by
+  unfold Spec.construct; simp only [h, if_true]; exact kernel_elementwise s xs hx
+
+
 end PP.Kernel
 
 namespace PP.Corrector
@@ -578,6 +653,246 @@ mode agrees with it in every mode. -/
 theorem mode_independent {μ α β : Type} (f : α → β) (g : μ → α → β) (m0 : μ) (h0 : ∀ x, g m0 x = f x)
     (hm : ∀ m m' x, g m x = g m' x) (m : μ) (x : α) : g m x = f x := by
   rw [hm m m0 x, h0 x]
+
+
+/-! ## pass 3 — Triggs for every α, root choice, flat memory layout, one optimiser step end to end -/
+
+section item
+variable (d : Nat) (x g1 g2 al : ℝ) (R : Nat → ℝ) (J : Nat → Nat → ℝ)
+
+theorem triggsAlpha_R (a : Nat) : (triggsAlpha d x g1 al R J).R a = Real.sqrt g1 * R a / (1 - al) := by
+  unfold triggsAlpha; simp only [sqrt_real, k_real, Nat.cast_one]
+
+theorem triggsAlpha_J (a l : Nat) :
+    (triggsAlpha d x g1 al R J).J a l = Real.sqrt g1 * (J a l - al / x * R a * ∑ b ∈ range d, R b * J b l) := by
+  unfold triggsAlpha
+  simp only [sqrt_real, sumN_eq_sum]
+  have : ∑ b ∈ range d, R a * R b * (Real.sqrt g1 * J b l) = R a * Real.sqrt g1 * ∑ b ∈ range d, R b * J b l := by
+    rw [mul_sum]; exact sum_congr rfl fun b _ => by ring
+  rw [this]; ring
+
+/-- the masked branch of the code *is* `triggsAlpha` at the code's `alpha` -/
+theorem triggs_masked_eq_triggsAlpha (hm : mask x g2 = true) :
+    triggs d x g1 g2 R J = triggsAlpha d x g1 (alpha x g1 g2) R J := by
+  unfold triggs triggsAlpha; simp only [hm, if_true]
+
+/-- **Gradient identity for every `α ≠ 1`** (no root condition at all): `Σ_a J'_{al} R'_a = ρ' Σ_a J_{al} R_a`. -/
+theorem triggsAlpha_grad (hxR : x = ∑ a ∈ range d, R a * R a) (hx : x ≠ 0) (h1 : 0 ≤ g1) (hal : al ≠ 1) (l : Nat) :
+    ∑ a ∈ range d, (triggsAlpha d x g1 al R J).J a l * (triggsAlpha d x g1 al R J).R a
+      = g1 * ∑ a ∈ range d, J a l * R a := by
+  have hg := Real.mul_self_sqrt h1
+  have h1a : 1 - al ≠ 0 := sub_ne_zero.mpr (Ne.symm hal)
+  simp only [triggsAlpha_R, triggsAlpha_J]
+  set c := ∑ b ∈ range d, R b * J b l with hc
+  have e1 : ∀ a, Real.sqrt g1 * (J a l - al / x * R a * c) * (Real.sqrt g1 * R a / (1 - al))
+      = (g1 / (1 - al)) * (R a * J a l) - (g1 / (1 - al) * (al / x) * c) * (R a * R a) := by
+    intro a
+    calc _ = (Real.sqrt g1 * Real.sqrt g1) / (1 - al) * (R a * J a l)
+              - ((Real.sqrt g1 * Real.sqrt g1) / (1 - al) * (al / x) * c) * (R a * R a) := by ring
+      _ = _ := by rw [hg]
+  simp only [e1]
+  rw [sum_sub_distrib, ← mul_sum, ← mul_sum, ← hc, ← hxR]
+  have hc' : ∑ a ∈ range d, J a l * R a = c := by rw [hc]; exact sum_congr rfl fun a _ => by ring
+  rw [hc']
+  field_simp
+
+/-- **Second-order identity for every `α`**: `J'ᵀJ' = ρ' JᵀJ + ρ'(α² − 2α)/‖R‖² · JᵀR RᵀJ`. -/
+theorem triggsAlpha_hess (hxR : x = ∑ a ∈ range d, R a * R a) (hx : x ≠ 0) (h1 : 0 ≤ g1) (l m : Nat) :
+    ∑ a ∈ range d, (triggsAlpha d x g1 al R J).J a l * (triggsAlpha d x g1 al R J).J a m
+      = g1 * ∑ a ∈ range d, J a l * J a m
+        + g1 * (al ^ 2 - 2 * al) / x * ((∑ a ∈ range d, J a l * R a) * (∑ a ∈ range d, R a * J a m)) := by
+  have hg := Real.mul_self_sqrt h1
+  simp only [triggsAlpha_J]
+  set cl := ∑ b ∈ range d, R b * J b l with hcl
+  set cm := ∑ b ∈ range d, R b * J b m with hcm
+  have e1 : ∀ a, Real.sqrt g1 * (J a l - al / x * R a * cl) * (Real.sqrt g1 * (J a m - al / x * R a * cm))
+      = g1 * (J a l * J a m) - (g1 * (al / x) * cm) * (R a * J a l) - (g1 * (al / x) * cl) * (R a * J a m)
+        + (g1 * (al / x)^2 * cl * cm) * (R a * R a) := by
+    intro a
+    calc _ = (Real.sqrt g1 * Real.sqrt g1) * ((J a l - al / x * R a * cl) * (J a m - al / x * R a * cm)) := by ring
+      _ = g1 * ((J a l - al / x * R a * cl) * (J a m - al / x * R a * cm)) := by rw [hg]
+      _ = _ := by ring
+  simp only [e1]
+  rw [sum_add_distrib, sum_sub_distrib, sum_sub_distrib, ← mul_sum, ← mul_sum, ← mul_sum, ← mul_sum, ← hcl, ← hcm, ← hxR]
+  have hc' : ∑ a ∈ range d, J a l * R a = cl := by rw [hcl]; exact sum_congr rfl fun a _ => by ring
+  rw [hc']
+  field_simp
+  ring
+
+/-- … hence for **either root** of `½α² − α − (ρ''/ρ')‖R‖² = 0` the documented form `ρ' JᵀJ + 2ρ'' JᵀRRᵀJ`. -/
+theorem triggsAlpha_hess_root (hxR : x = ∑ a ∈ range d, R a * R a) (hx : x ≠ 0) (h1 : 0 < g1)
+    (hroot : (1/2) * al ^ 2 - al - g2 / g1 * x = 0) (l m : Nat) :
+    ∑ a ∈ range d, (triggsAlpha d x g1 al R J).J a l * (triggsAlpha d x g1 al R J).J a m
+      = g1 * ∑ a ∈ range d, J a l * J a m
+        + 2 * g2 * ((∑ a ∈ range d, J a l * R a) * (∑ a ∈ range d, R a * J a m)) := by
+  rw [triggsAlpha_hess d x g1 al R J hxR hx h1.le l m]
+  have : g1 * (al ^ 2 - 2 * al) / x = 2 * g2 := by
+    have hg0 := h1.ne'
+    field_simp
+    field_simp at hroot
+    nlinarith [hroot]
+  rw [this]
+
+end item
+
+/-- **The two roots.** For `c ≥ -½` the equation `½α² − α − c = 0` has exactly the roots `1 ∓ √(1+2c)`. -/
+theorem alpha_quadratic_roots {c al : ℝ} (hc : 0 ≤ 1 + 2 * c) :
+    (1/2) * al ^ 2 - al - c = 0 ↔ al = 1 - Real.sqrt (1 + 2 * c) ∨ al = 1 + Real.sqrt (1 + 2 * c) := by
+  have hs := Real.mul_self_sqrt hc
+  constructor
+  · intro h
+    have : (al - 1 - Real.sqrt (1 + 2 * c)) * (al - 1 + Real.sqrt (1 + 2 * c)) = 0 := by nlinarith
+    rcases mul_eq_zero.mp this with h' | h'
+    · right; linarith
+    · left; linarith
+  · rintro (h | h) <;> rw [h] <;> nlinarith
+
+/-- **Root choice of the code.** On the mask (`ρ'>0, ρ''>0, R≠0`) the clamp is inactive, the code's `alpha` is the root
+`1 − √(1 + 2‖R‖²ρ''/ρ')`, it is the *only* root below 1 (so `1−α > 0`: the corrected residual keeps the direction of `R`),
+and it is negative. -/
+theorem alpha_code_root {x g1 g2 : ℝ} (hx : 0 < x) (h1 : 0 < g1) (h2 : 0 < g2) :
+    smax (k 0 : ℝ) (k 1 + k 2 * x * g2 / g1) = 1 + 2 * x * g2 / g1 ∧
+    alpha x g1 g2 = 1 - Real.sqrt (1 + 2 * (g2 / g1 * x)) ∧
+    (∀ al, (1/2) * al ^ 2 - al - g2 / g1 * x = 0 → al < 1 → al = alpha x g1 g2) ∧ alpha x g1 g2 < 0 := by
+  have ht : 0 < 2 * x * g2 / g1 := by positivity
+  have hc : 0 ≤ 1 + 2 * (g2 / g1 * x) := by positivity
+  have e : 1 + 2 * (g2 / g1 * x) = 1 + 2 * x * g2 / g1 := by ring
+  obtain ⟨he, hs⟩ := one_sub_alpha x g1 g2 hx h1 h2
+  have ha : alpha x g1 g2 = 1 - Real.sqrt (1 + 2 * (g2 / g1 * x)) := by rw [e]; linarith
+  refine ⟨?_, ha, ?_, by linarith⟩
+  · simp only [smax_real, k_real, Nat.cast_zero, Nat.cast_one, Nat.cast_ofNat]
+    exact max_eq_right (by linarith)
+  · intro al hroot hlt
+    rcases (alpha_quadratic_roots hc).mp hroot with h | h
+    · rw [ha, h]
+    · have := Real.sqrt_nonneg (1 + 2 * (g2 / g1 * x)); linarith
+
+
+/-- a sum over the `N*d` flat rows is the double sum over items and components -/
+theorem sumN_flat (N d : Nat) (f : Nat → ℝ) : sumN (N * d) f = sumN N fun i => sumN d fun a => f (i * d + a) := by
+  induction N with
+  | zero => simp [sumN]
+  | succ n ih =>
+    rw [Nat.succ_mul, sumN_add, ih]
+    simp only [sumN]
+
+theorem flat_index (d i a : Nat) (ha : a < d) : itemOf d (i * d + a) = i ∧ compOf d (i * d + a) = a := by
+  unfold itemOf compOf
+  constructor
+  · rw [Nat.add_comm, Nat.add_mul_div_right _ _ (by omega), Nat.div_eq_of_lt ha]; omega
+  · rw [Nat.add_comm, Nat.add_mul_mod_self_right]; exact Nat.mod_eq_of_lt ha
+
+/-- **Flat layout = item model** (the code's `sj = s.expand_as(R).reshape(-1,1)`): row `i*d + a` of the flat outputs of
+`FastTriggs` / `Triggs` is component `a` of the corrected item `i`; for FastTriggs that is `√ρ'(‖R_i‖²)` times the input row. -/
+theorem flat_rows (ρ1 ρ2 : ℝ → ℝ) (d : Nat) (Rf : Nat → ℝ) (Jf : Nat → Nat → ℝ) (i a l : Nat) (ha : a < d) :
+    (fastFlat ρ1 d Rf Jf).1 (i * d + a) = Real.sqrt (ρ1 (normSq d (unflatR d Rf i))) * Rf (i * d + a) ∧
+    (fastFlat ρ1 d Rf Jf).2 (i * d + a) l = Real.sqrt (ρ1 (normSq d (unflatR d Rf i))) * Jf (i * d + a) l ∧
+    (triggsFlat ρ1 ρ2 d Rf Jf).1 (i * d + a) = (triggsOf ρ1 ρ2 d (unflatR d Rf i) (unflatJ d Jf i)).R a ∧
+    (triggsFlat ρ1 ρ2 d Rf Jf).2 (i * d + a) l = (triggsOf ρ1 ρ2 d (unflatR d Rf i) (unflatJ d Jf i)).J a l := by
+  obtain ⟨hi, hc⟩ := flat_index d i a ha
+  refine ⟨?_, ?_, ?_, ?_⟩ <;> simp only [fastFlat, triggsFlat, hi, hc] <;> try rfl
+
+/-- **What the solver sees**: `J'ᵀR'` summed over the flat rows equals the item-level `JtR`, hence (with the corrector
+identities) `Σ_i ρ'(‖R_i‖²) J_iᵀR_i` — for every batch size `N` and residual dimension `d`. -/
+theorem flat_JtR (ρ1 ρ2 : ℝ → ℝ) (N d : Nat) (Rf : Nat → ℝ) (Jf : Nat → Nat → ℝ) (l : Nat) :
+    flatJtR (N * d) (fastFlat ρ1 d Rf Jf) l = JtR N d (fun i => fastOf ρ1 d (unflatR d Rf i) (unflatJ d Jf i)) l ∧
+    flatJtR (N * d) (triggsFlat ρ1 ρ2 d Rf Jf) l = JtR N d (fun i => triggsOf ρ1 ρ2 d (unflatR d Rf i) (unflatJ d Jf i)) l := by
+  unfold flatJtR JtR
+  rw [sumN_flat, sumN_flat]
+  simp only [sumN_eq_sum]
+  constructor <;>
+  · refine sum_congr rfl fun i _ => sum_congr rfl fun a ha => ?_
+    obtain ⟨h1, h2, h3, h4⟩ := flat_rows ρ1 ρ2 d Rf Jf i a l (mem_range.mp ha)
+    first
+      | (rw [h3, h4])
+      | (obtain ⟨hi, hc⟩ := flat_index d i a (mem_range.mp ha); unfold fastFlat; simp only [hi, hc])
+
+theorem flat_JtR_law (ρ1 ρ2 : ℝ → ℝ) (hρ : ∀ x, 0 ≤ x → 0 < ρ1 x) (N d : Nat) (Rf : Nat → ℝ) (Jf : Nat → Nat → ℝ) (l : Nat) :
+    flatJtR (N * d) (fastFlat ρ1 d Rf Jf) l
+      = ∑ i ∈ range N, ρ1 (normSq d (unflatR d Rf i)) * ∑ a ∈ range d, Jf (i * d + a) l * Rf (i * d + a) ∧
+    flatJtR (N * d) (triggsFlat ρ1 ρ2 d Rf Jf) l
+      = ∑ i ∈ range N, ρ1 (normSq d (unflatR d Rf i)) * ∑ a ∈ range d, Jf (i * d + a) l * Rf (i * d + a) := by
+  obtain ⟨h1, h2⟩ := flat_JtR ρ1 ρ2 N d Rf Jf l
+  rw [h1, h2, fastTriggs_grad N d _ _ ρ1 (fun x hx => (hρ x hx).le) l, triggs_grad N d _ _ ρ1 ρ2 hρ l]
+  exact ⟨rfl, rfl⟩
+
+
+/-- **Both correctors with every built-in kernel** (as the code computes it), every batch size `N`, residual dimension `d`,
+residual `R`, Jacobian `J`: the gradient identity for FastTriggs and Triggs, `Triggs = FastTriggs` item by item (no built-in
+kernel has positive curvature), and `J'ᵀJ' = Σρ'JᵀJ` for both. -/
+theorem builtin_spec_correctors (s : Spec ℝ) (h : s.inDomain) (N d : Nat) (R : Nat → Nat → ℝ) (J : Nat → Nat → Nat → ℝ) (l m : Nat) :
+    JtR N d (fun i => fastOf s.d1 d (R i) (J i)) l = ∑ i ∈ range N, s.d1 (normSq d (R i)) * ∑ a ∈ range d, J i a l * R i a ∧
+    JtR N d (fun i => triggsOf s.d1 s.d2 d (R i) (J i)) l = ∑ i ∈ range N, s.d1 (normSq d (R i)) * ∑ a ∈ range d, J i a l * R i a ∧
+    (∀ i, triggsOf s.d1 s.d2 d (R i) (J i) = fastOf s.d1 d (R i) (J i)) ∧
+    JtJ N d (fun i => triggsOf s.d1 s.d2 d (R i) (J i)) l m = ∑ i ∈ range N, s.d1 (normSq d (R i)) * ∑ a ∈ range d, J i a l * J i a m := by
+  obtain ⟨_, _, hsig, _⟩ := builtin_spec_laws s h
+  have hpos : ∀ x, 0 ≤ x → 0 < s.d1 x := fun x hx => (hsig x hx).2.1
+  have heq : ∀ i, triggsOf s.d1 s.d2 d (R i) (J i) = fastOf s.d1 d (R i) (J i) := fun i =>
+    triggs_eq_fastTriggs_elsewhere d s.d1 s.d2 (R i) (J i) (Or.inl (hsig _ (normSq_nonneg d (R i))).2.2)
+  refine ⟨fastTriggs_grad N d R J s.d1 (fun x hx => (hpos x hx).le) l, triggs_grad N d R J s.d1 s.d2 hpos l, heq, ?_⟩
+  simp only [heq]
+  exact fastTriggs_hess N d R J s.d1 (fun x hx => (hpos x hx).le) l m
+
+
+
+/-- **One optimiser step, end to end** (GN and LM, any number of residual tensors, any batch sizes and residual
+dimensions): if `kernel=` is given (one module, or a list with one entry or one entry per residual; `None` entries allowed)
+and no corrector, then the `J'ᵀR'` of the stacked system handed to the linear solver is exactly half the derivative of the
+loss `RobustModel.loss` reports — along every parameter coordinate. -/
+theorem step_direction_is_total_loss_gradient {κ γ : Type} (ρ ρ1 ρ2 : KSel κ → ℝ → ℝ) (ka : Arg κ) (ks : List (KSel κ))
+    (hk : kernelList ka = some ks) (nres : Nat) (hlen : ks.length = 1 ∨ ks.length = nres)
+    (hpos : ∀ c x, 0 ≤ x → 0 ≤ ρ1 c x)
+    (dims : Nat → Nat × Nat) (r j : Nat → Nat → Nat → ℝ → ℝ) (t : ℝ)
+    (hr : ∀ k < nres, ∀ i < (dims k).1, ∀ a < (dims k).2, HasDerivAt (r k i a) (j k i a t) t)
+    (hρ : ∀ k < nres, ∀ c, ∀ i < (dims k).1,
+      HasDerivAt (ρ c) (ρ1 c (normSq (dims k).2 fun a => r k i a t)) (normSq (dims k).2 fun a => r k i a t)) :
+    HasDerivAt (fun s => lossTotal ρ (robustKernels ka) nres (fun k => ((dims k).1, (dims k).2, fun i a => r k i a s)))
+      (2 * stepJtR (autoSem (γ := γ) ρ1 ρ2) (correctors ka (Arg.none : Arg γ)) nres
+        (fun k => ((dims k).1, (dims k).2, (fun i a => r k i a t), fun i a _ => j k i a t)) 0) t := by
+  have h := total_loss_hasDerivAt ρ ρ1 (robustKernels ka) nres dims r j t hr (fun k hk' c _ i hi => hρ k hk' c i hi)
+  refine h.congr_deriv ?_
+  congr 1
+  unfold stepJtR
+  simp only [sumN_eq_sum]
+  refine sum_congr rfl fun k hk' => ?_
+  obtain ⟨c, hl, hs⟩ := auto_corrector_matches_loss_kernel (γ := γ) ka ks hk nres k (mem_range.mp hk') hlen
+  rw [hl, hs]
+  simp only [autoSem, applyCorr]
+  rw [fastTriggs_grad (dims k).1 (dims k).2 (fun i a => r k i a t) (fun i a _ => j k i a t) (ρ1 c) (hpos c) 0]
+
+/-- non-vacuity of the hypotheses: two residual tensors, kernels `[k, None]` -/
+example : kernelList (Arg.many [some (7 : Nat), none]) = some [KSel.ker 7, KSel.trivial] ∧
+    ([KSel.ker 7, KSel.trivial] : List (KSel Nat)).length = 2 := by decide
+
+
+
+/-- **Triggs gradient identity under the exact guard**: only the items actually evaluated need `ρ' ≥ 0`
+(the square root), and only the *masked* ones (`ρ''>0 ∧ R_i≠0`, where the code divides by `ρ'`) need `ρ' > 0`. -/
+theorem triggs_grad_exact_guard (N d : Nat) (R : Nat → Nat → ℝ) (J : Nat → Nat → Nat → ℝ) (ρ1 ρ2 : ℝ → ℝ)
+    (h0 : ∀ i < N, 0 ≤ ρ1 (normSq d (R i)))
+    (hm : ∀ i < N, normSq d (R i) ≠ 0 → 0 < ρ2 (normSq d (R i)) → 0 < ρ1 (normSq d (R i))) (l : Nat) :
+    JtR N d (fun i => triggsOf ρ1 ρ2 d (R i) (J i)) l
+      = ∑ i ∈ range N, ρ1 (normSq d (R i)) * ∑ a ∈ range d, J i a l * R i a := by
+  unfold JtR
+  simp only [sumN_eq_sum]
+  refine sum_congr rfl fun i hi => ?_
+  have hi' := mem_range.mp hi
+  have hx0 := normSq_nonneg d (R i)
+  by_cases hmask : normSq d (R i) ≠ 0 ∧ 0 < ρ2 (normSq d (R i))
+  · unfold triggsOf
+    exact triggs_item_grad_masked d _ _ _ (R i) (J i) (normSq_eq_sum d (R i)) (lt_of_le_of_ne hx0 (Ne.symm hmask.1))
+      (hm i hi' hmask.1 hmask.2) hmask.2 l
+  · have : triggsOf ρ1 ρ2 d (R i) (J i) = fastOf ρ1 d (R i) (J i) := by
+      unfold triggsOf fastOf
+      apply triggs_unmasked
+      rw [mask_real]; simpa using hmask
+    rw [this]
+    exact fast_item_grad d _ (R i) (J i) (h0 i hi') l
+
+/-- non-vacuity: a kernel whose slope vanishes at one point only (`ρ' = (x-1)²`, `ρ'' = 2(x-1)`), residual items with
+`‖R‖² = 1` (slope 0, unmasked since `ρ''=0`) are admitted by the exact guard but not by `triggs_grad` -/
+example : (0:ℝ) ≤ (fun x : ℝ => (x - 1) ^ 2) 1 ∧ ¬ (0:ℝ) < (fun x : ℝ => (x - 1) ^ 2) 1 ∧ ¬ (0:ℝ) < (fun x : ℝ => 2 * (x - 1)) 1 := by
+  norm_num
 
 
 end PP.Corrector
